@@ -461,6 +461,7 @@ pub fn shrink_runloop(sc: &RunloopSc, fails: &mut dyn FnMut(&RunloopSc) -> bool)
     attempt!(|c: &mut RunloopSc| c.env.p_spawn_fail = 0);
     attempt!(|c: &mut RunloopSc| c.env.stalls.clear());
     attempt!(|c: &mut RunloopSc| c.via_parser = false);
+    attempt!(|c: &mut RunloopSc| c.prelude.clear());
     {
         let b2 = best.clone();
         let p = best.prog.clone();
